@@ -2,6 +2,7 @@ package main
 
 import (
 	"encoding/json"
+	"regexp"
 	"fmt"
 	"os"
 	"path/filepath"
@@ -39,6 +40,9 @@ func report(cfg *runCfg, g *Gen, results []*fnResult, obls []*Obligation, engine
 	if hasBase {
 		for _, n := range base.Obligations[cfg.prop] {
 			inBase[n] = true
+			// a callee precondition is the same obligation at whichever call site it arises:
+			// compare "requires" obligations modulo the call-site ordinal
+			inBase[normRequires(n)] = true
 		}
 	}
 	isKnown := func(name string) *knownFinding {
@@ -103,7 +107,7 @@ func report(cfg *runCfg, g *Gen, results []*fnResult, obls []*Obligation, engine
 			lines = append(lines, fmt.Sprintf("KNOWN-FINDING: property=%s %s (%s)", cfg.prop, kf.What, o.Name))
 			return
 		}
-		if !decided && hasBase && !inBase[o.Name] {
+		if !decided && hasBase && !inBase[o.Name] && !(o.Kind == "requires" && inBase[normRequires(o.Name)]) {
 			// a new obligation that no solver decided: undecided, not a violation
 			fmt.Fprintf(os.Stderr, "UNDECIDED: %s status=%s (not in baseline; no violation claimed)\n", o.Name, o.Status)
 			return
@@ -293,4 +297,14 @@ func writeBaseline(cfg *runCfg, obls []*Obligation, engineErrors int) int {
 	os.WriteFile(filepath.Join(cfg.verif, "spec", "baseline_obligations.json"), b, 0o644)
 	fmt.Fprintf(os.Stderr, "baseline written: %d obligations, %d not discharged (omitted)\n", len(obls), bad)
 	return 0
+}
+
+var reCallOrd = regexp.MustCompile(`#\d+:`)
+
+// normRequires drops the call-site ordinal of a requires obligation name.
+func normRequires(n string) string {
+	if !strings.Contains(n, ":requires:") {
+		return n
+	}
+	return reCallOrd.ReplaceAllString(n, "#*:")
 }
